@@ -239,7 +239,39 @@ pub fn probe_code(p: &Prog) -> String {
 pub fn run(tier: &str) -> i32 {
     let mut rep = Report::new("C07", tier);
     let thorough = rep.thorough();
-    let progs = space(thorough);
+    let mut progs = space(thorough);
+    // entry points of other stages declared before / between the vertex entries
+    {
+        let n0 = progs.len();
+        for i in 0..n0 {
+            if !progs[i].key.starts_with("entry|") {
+                continue;
+            }
+            let first = progs[i].src.find("@vertex");
+            let last = progs[i].src.rfind("@vertex");
+            if let (Some(a), Some(b)) = (first, last) {
+                let mut q = progs[i].clone();
+                q.src.insert_str(b, "@compute @workgroup_size(1) fn cs_between() {\n}\n");
+                q.src.insert_str(a, "@fragment fn fs_first() -> @location(0) vec4<f32> {\n    return vec4<f32>(0.0);\n}\n");
+                q.key = format!("{}|other-stages-first", q.key);
+                progs.push(q);
+            }
+        }
+    }
+    // module-scope declaration order is not significant: reversed / functions-first variants (every 4th in quick)
+    let n0 = progs.len();
+    for i in 0..n0 {
+        if thorough || hash64(&progs[i].key) % 4 == 1 {
+            for how in ["reverse", "entries-first"] {
+                if let Some(src) = reorder_decls(&progs[i].src, how) {
+                    let mut q = progs[i].clone();
+                    q.key = format!("{}|decl-order={how}", q.key);
+                    q.src = src;
+                    progs.push(q);
+                }
+            }
+        }
+    }
     let cfgs = configs(thorough);
     let items: Vec<(usize, usize)> = (0..progs.len()).flat_map(|p| (0..cfgs.len()).map(move |c| (p, c))).collect();
     let res = par_map(&items, |(pi, ci)| {
@@ -306,8 +338,14 @@ pub fn run(tier: &str) -> i32 {
         let detail = |obs: String| json!({"wgsl": p.src, "config": c.key(), "observed": obs});
         match &cr.check {
             Verdict::Accepted => {}
-            Verdict::Rejected(_) => {
-                rep.filtered("compiled subset: module rejected by rustc (C01's domain; e.g. Pod padding with bytemuck vertex derives)");
+            Verdict::Rejected(e) => {
+                // the deliberate rejection: Pod on a vertex struct with padding (bytemuck vertex switch). Anything else that
+                // keeps these modules (vertex structs + trivial entries) from compiling is the attribute table / helpers
+                if e.iter().all(|x| x.0 == "E0080" && x.1.contains("Pod")) {
+                    rep.filtered("compiled subset: Pod's no-padding rule rejects the vertex struct (bytemuck vertex switch)");
+                } else {
+                    rep.violation(case, format!("exec: vertex structs / attribute tables / entry helpers do not compile: {} {}", e[0].0, e[0].1.chars().take(90).collect::<String>()), detail(format!("{e:?}")));
+                }
                 continue;
             }
             Verdict::ProbeMismatch(e) => {
